@@ -54,7 +54,7 @@ manifest = {
     ],
     "checks": checks,
     "not_applicable": na,
-    "notes": "All checks are static: they decide structural clauses of each property from the type-checked program and say in their evidence which part of the statement is not decided. Known findings: /verif/known_findings.json.",
+    "notes": "All checks are static: they decide structural clauses of each property from the type-checked program and say in their evidence which part of the statement is not decided. Known findings: /verif/known_findings.json. Quick and thorough both analyse all four feature configurations of /repo (default, no parallel, no parallel + derive, nightly); thorough adds the engine self-test, the derive expansions of /repo's own tests / examples / benches and the compile_fail witnesses. Who-may inventories fail closed on a second mechanism (a new owner of the plan tables, a new pool crossing, a new unsafe caller): DESIGN.md 13.9.",
 }
 with open(os.path.join(VERIF, "MANIFEST.json"), "w") as f:
     json.dump(manifest, f, indent=1)
